@@ -228,6 +228,8 @@ def rule_r5(ctx):
     rr = RuleResult("C12-R5", "implicit class methods: exactly __init_subclass__ and __class_getitem__, only for methods")
     rr.floor = 2
     entry = ctx.tmpl.pending_by_kind("FunctionDef")
+    if not entry.ok_paths():
+        raise AnalysisError("C12-R5: the FunctionDef template could not be extracted: nothing is concluded about the implicit class methods")
     wrapped_names = set()
     consulted_names = set()
     for pr in entry.ok_paths():
